@@ -47,6 +47,11 @@ def ev_call(st, n):
     if isinstance(f, ast.Name) and f.id == 'zip' and len(n.args) == 1 and isinstance(n.args[0], ast.Starred):
         return unzip(st, E.ev(st, n.args[0].value))
     fv = E.ev(st, f)
+    args, kwargs = eval_args(st, n)
+    return apply_value(st, fv, args, kwargs, n)
+
+
+def eval_args(st, n):
     args = []
     for a in n.args:
         if isinstance(a, ast.Starred):
@@ -60,9 +65,12 @@ def ev_call(st, n):
     kwargs = {}
     for kw in n.keywords:
         if kw.arg is None:
+            kv = E.ev(st, kw.value)
+            if kv.t.kind == 'kwargs':
+                continue          # assumed-empty **kwargs pass-through
             raise Undecided('**kwargs call')
         kwargs[kw.arg] = E.ev(st, kw.value)
-    return apply_value(st, fv, args, kwargs, n)
+    return args, kwargs
 
 
 def apply_value(st, fv, args, kwargs, n=None):
@@ -157,8 +165,7 @@ def call_super(st, n):
     chain = R.mro(recv.t.name if recv.t.kind == 'ref' else cls)
     # static resolution: next class after `cls` in the MRO of the static receiver type
     order = R.mro(cls)[1:]
-    args = [E.ev(st, a) for a in n.args]
-    kwargs = {kw.arg: E.ev(st, kw.value) for kw in n.keywords}
+    args, kwargs = eval_args(st, n)
     for c in order:
         k = '%s.%s' % (c, f.attr)
         if k in R.CONTRACTS:
@@ -194,7 +201,10 @@ def bind_args(st, c, args, kwargs, closure_env=None, npos=None):
             if p in closure_env:
                 env[p] = closure_env[p]
         names = names[:npos] + [p for p in names[npos:] if p not in env]
-    pos = [p for p in names if p != c.vararg]
+    pos = [p for p in names if p != c.vararg and c.params[p].kind != 'kwargs']
+    for p in names:
+        if c.params[p].kind == 'kwargs':
+            env[p] = Val(c.params[p], None)
     if len(args) > len(pos) and not c.vararg:
         raise Undecided('too many arguments for %s' % c.key)
     for p, a in zip(pos, args):
@@ -533,6 +543,10 @@ def _quant(st, n, is_forall):
             guards.append(z3.And(0 <= i, i < j, j < hi))
             st.locals[names[0]] = Val(T.INT, i)
             st.locals[names[1]] = Val(T.INT, j)
+        elif isinstance(dom, ast.Name) and dom.id in R.CLASSES and dom.id not in st.locals:
+            x = z3.Int('%s!q%d' % (names[0], tag))
+            vars_.append(x)
+            st.locals[names[0]] = Val(T.TRef(dom.id), x)
         elif isinstance(dom, ast.Name) and dom.id in ('Int', 'Str', 'Real', 'Bytes') or \
                 (isinstance(dom, ast.Subscript) or (isinstance(dom, ast.Name) and dom.id in T._ALIASES)):
             ty = T._pt(dom)
@@ -652,10 +666,8 @@ def bi_len(st, args, kw):
         c = R.find_contract(v.t.name, '__len__')
         if c is not None:
             return call_contract(st, c, [v], {}, None)
-    if k in ('set', 'setv'):
-        c = SPECFUNS.get('card')
-        if c:
-            return c(st, [v])
+    if k == 'set':
+        return E.mk_int(st.set_card(v.z, v.t.args[0]))
     if k == 'view':
         return E.mk_int(v.z[2])
     raise Undecided('len of %r' % (v.t,))
@@ -1125,7 +1137,12 @@ def _set_add(st, recv, args, kw):
     et = recv.t.args[0]
     E.check_or_raise(st, recv.z != 0, 'AttributeError')
     E.check_frame_contents(st, recv.z)
-    st.set_store(recv.z, et, z3.Store(st.set_val(recv.z, et), st.coerce(args[0], et).z, True))
+    x = st.coerce(args[0], et).z
+    cur = st.set_val(recv.z, et)
+    card = None
+    if ('$scard:' + T.sort_name(T.sort_of(et))) in st.heap:     # only when len(set) is in use
+        card = st.set_card(recv.z, et) + z3.If(z3.Select(cur, x), 0, 1)
+    st.set_store(recv.z, et, z3.Store(cur, x, True), card)
     return E.NONE_VAL()
 
 
@@ -1134,7 +1151,12 @@ def _set_discard(st, recv, args, kw):
     et = recv.t.args[0]
     E.check_or_raise(st, recv.z != 0, 'AttributeError')
     E.check_frame_contents(st, recv.z)
-    st.set_store(recv.z, et, z3.Store(st.set_val(recv.z, et), st.coerce(args[0], et).z, False))
+    x = st.coerce(args[0], et).z
+    cur = st.set_val(recv.z, et)
+    card = None
+    if ('$scard:' + T.sort_name(T.sort_of(et))) in st.heap:
+        card = st.set_card(recv.z, et) - z3.If(z3.Select(cur, x), 1, 0)
+    st.set_store(recv.z, et, z3.Store(cur, x, False), card)
     return E.NONE_VAL()
 
 
